@@ -45,6 +45,8 @@ pub struct GenCfg {
     pub branchiness: u64,
     /// widths of small constants are biased to tiny values when true (for explorations)
     pub small_consts: bool,
+    /// never generate an edge into the entry block
+    pub no_entry_pred: bool,
 }
 
 impl GenCfg {
@@ -64,6 +66,7 @@ impl GenCfg {
             expr_depth: 2,
             branchiness: 60,
             small_consts: false,
+            no_entry_pred: false,
         }
     }
 }
@@ -310,6 +313,10 @@ pub fn function(rng: &mut Rng, cfg: &GenCfg, address: u64) -> il::Function {
         let mut guard = 0;
         while tails.len() < k && guard < 50 {
             let t = rng.below(nb as u64) as usize;
+            if cfg.no_entry_pred && t == 0 {
+                guard += 1;
+                continue;
+            }
             if !tails.contains(&t) {
                 tails.push(t);
             }
